@@ -15,8 +15,10 @@ TRUSTED_BASE = [
     "correspondence check: harness/ (Rust, rebuilt against /repo on every run; overflow-checks, catch_unwind, "
     "8-aligned buffers) and tools/vcheck.py + tools/registry.py (comparison rules)",
     "modelled, not verified: the Rust source (correspondence is sampled), std semantics written into the model "
-    "(HashMap/BTreeMap as finite maps, slice::binary_search_by of this toolchain, str::{lines,trim,parse}, write_all), "
-    "watto 0.1.0 (Pod casts = LE decode on aligned buffers, StringTable), leb128 0.2.5; x86_64 little-endian 64-bit",
+    "(HashMap/BTreeMap as finite maps, slice::binary_search_by of this toolchain, str::{lines,trim,parse,cmp}, from_utf8, "
+    "char::is_numeric, write_all), watto 0.1.0 (Pod casts = LE decode on aligned buffers, StringTable), leb128 0.2.5; "
+    "the hand-written std / dependency functions are themselves compared with the real ones (ops HU HT HL HC HP HN HB HE HD HW "
+    "in the C04, C06, C07, C09, C12 checks); x86_64 little-endian 64-bit",
 ]
 
 
@@ -172,6 +174,10 @@ def check_case(prop, case, il, ml, ctx):
                     probs.append("printing the typed result differs from the text API on the printed input")
             _nontrivial(ctx, case, I.get("m", "").split("/")[-1] != I.get("p"))
             _kind(ctx, "Y:parsed")
+    elif op in ("HU", "HT", "HL", "HC", "HP", "HN", "HB", "HE", "HD", "HW"):
+        if il != ml:
+            probs.append(f"std semantics {op}: Rust {il[:200]!r} model {ml[:200]!r} on {case[:200]}")
+        _kind(ctx, "std:" + op)
     elif op in ("E5", "E6"):
         if il != ml:
             probs.append(f"{op} block {case.split(' ')[1]}: digests differ: implementation {il} model {ml} "
@@ -305,7 +311,7 @@ def P(theorems, text, rule, status, **kw):
 
 
 PROPS = {
-    "C01": P(["C01_mapper", "C01_mapper_file", "C01_cache", "C01_index_irrelevant", "C01_unknown_class", "C01_terminator_style", "C01_noise_line", "C01_block_order_irrelevant"],
+    "C01": P(["C01_mapper", "C01_mapper_file", "C01_cache", "C01_index_irrelevant", "C01_unknown_class", "C01_terminator_style", "C01_noise_line", "C01_block_order_irrelevant", "C01_spec_shape", "C01_spec_applies", "C01_spec_range_offset"],
              "Theorems: the mapper model returns exactly the declarative specification Sline for every record list "
              "(all classes, methods, lines, files), with or without parameter index; the records - hence the answer - "
              "do not depend on terminator style or unparseable lines. Mapper, mapper-without-index and cache of the "
